@@ -146,9 +146,13 @@ func (c *Ctx) RawRead() []core.Ob {
 						Want: "io.ReadAtLeast asks for exactly the buffer (min = len(buf)): a smaller minimum reads ahead into the bytes of the next item"}
 					exact := false
 					if lc, isCall := stripConv(call.Call.Args[2]).(*ssa.Call); isCall {
-						if bi, isB := lc.Call.Value.(*ssa.Builtin); isB && bi.Name() == "len" && len(lc.Call.Args) == 1 && sameValue(lc.Call.Args[0], call.Call.Args[1]) {
+						if bi, isB := lc.Call.Value.(*ssa.Builtin); isB && bi.Name() == "len" && len(lc.Call.Args) == 1 && sameValue(stripConv(lc.Call.Args[0]), stripConv(call.Call.Args[1])) {
 							exact = true
 						}
+					}
+					// buf[:n] with min n
+					if sl, isSl := call.Call.Args[1].(*ssa.Slice); isSl && sl.Low == nil && sl.High != nil && sameValue(stripConv(sl.High), stripConv(call.Call.Args[2])) {
+						exact = true
 					}
 					if k, isK := constIntVal(call.Call.Args[2]); isK {
 						if sl, isSl := call.Call.Args[1].(*ssa.Slice); isSl {
